@@ -4,7 +4,8 @@ host', including orders in which the task command overtakes the publication noti
 The real worker loop (`runner.entrypoint.entrypoint`) and a real shm server run as virtual processes on vcluster; a
 scripted executor stores each input in host shm at the moment it sends that input's notice and sends the TaskSequence at
 every possible position among the k notices (all (k+1)! orders), with an unrelated notice and a DatasetPurge of an
-already consumed dataset inserted at every position, followed by a second sequence. The task must run exactly once,
+already consumed dataset inserted at every position, followed by a second sequence and by a third one that
+consumes the first input again. The task must run exactly once,
 after all notices, with the right arguments; no TaskFailure."""
 from __future__ import annotations
 
@@ -37,9 +38,11 @@ def make_job(k: int) -> JobInstance:
     tasks["other"] = task("other", 0)
     tasks["T"] = task("T", k)
     tasks["T2"] = task("T2", 2)
+    tasks["T3"] = task("T3", 1)  # a later task on the same worker that consumes p0 again
     edges = [Task2TaskEdge(source=DatasetId(f"p{i}", "0"), sink_task="T", sink_input_kw=None, sink_input_ps=i) for i in range(k)]
     edges += [Task2TaskEdge(source=DatasetId("T", "0"), sink_task="T2", sink_input_kw=None, sink_input_ps=0),
-              Task2TaskEdge(source=DatasetId("old", "0"), sink_task="T2", sink_input_kw=None, sink_input_ps=1)]
+              Task2TaskEdge(source=DatasetId("old", "0"), sink_task="T2", sink_input_kw=None, sink_input_ps=1),
+              Task2TaskEdge(source=DatasetId("p0", "0"), sink_task="T3", sink_input_kw=None, sink_input_ps=0)]
     return JobInstance(tasks=tasks, edges=edges)
 
 
@@ -125,6 +128,10 @@ def run_scenario(k: int, order: list) -> list:
         if "Purge-old" not in order:
             comms.callback(entrypoint_mod.worker_address(w), msg.TaskSequence(worker=w, tasks=["T2"], publish={DatasetId("T2", "0")}))
             drain(500)
+        # third sequence: consumes p0 again -- the worker must still know that p0 is there, whichever way its notice
+        # reached it (before the command, or while the command was already waiting for it)
+        comms.callback(entrypoint_mod.worker_address(w), msg.TaskSequence(worker=w, tasks=["T3"], publish={DatasetId("T3", "0")}))
+        drain(500)
         comms.callback(entrypoint_mod.worker_address(w), msg.WorkerShutdown())
         wp.join()
         # results
@@ -145,6 +152,10 @@ def run_scenario(k: int, order: list) -> list:
             p2 = [m for m in got["msgs"] if isinstance(m, msg.DatasetPublished) and m.ds == DatasetId("T2", "0")]
             if len(p2) != 1:
                 out.append(("second_sequence", f"second sequence's output announced {len(p2)} times", f"order {order}"))
+        if not fails:
+            p3 = [m for m in got["msgs"] if isinstance(m, msg.DatasetPublished) and m.ds == DatasetId("T3", "0")]
+            if len(p3) != 1:
+                out.append(("later_sequence", f"a later sequence consuming an input of the first again: output announced {len(p3)} times", f"order {order}"))
         shm_client.shutdown()
         srv.join()
 
